@@ -2184,7 +2184,11 @@ def ex_go(ctx):
 #            / def serialize_..(..): ... (kind 'helper')
 #   struct : class N(BaseModel[, Generic[T]]): [docstring] [model_config = ConfigDict(populate_by_name=True)]
 #                n: T[ = Field([alias="k"][, ][default=None])] [docstring] | pass
-#   alias  : N[G] = T   [docstring at indent 0 after it]
+#   alias  : N = T   [docstring at indent 0 after it]; a generic alias spells its parameters only inside T (`N = List[T]`, used
+#            as N[int]): 'generics' = the declared TypeVars that T mentions, in order of first occurrence (what Python makes the
+#            alias's parameters).  The form N[G] = T of typeshare before the repair of write_type_alias (a subscript assignment,
+#            not an alias declaration in Python) is still read - 'generics' = G, 'form': 'subscript' - so that a regression is
+#            REPORTED by the checks that judge it (C10 grammar, C12 names) instead of being unreadable
 #   enum   : class N(str, Enum): [docstring] KEY = "w" [docstring] | pass                              (unit)
 #            class NTypes(str, Enum): KEY = "w" ... / class NV(BaseModel): [docstring] tag: Literal[NTypes.KEY] = NTypes.KEY [content: T]
 #            ... / [# comments] / N = Union[NV, ...] | N = NV                    (algebraic; NTypes is kind 'helper', 'helper_of': N;
@@ -2555,7 +2559,13 @@ def ex_python(ctx):
             if group is not None:
                 close_group('an assignment that is not its union follows')
             ctx.drop_docs()
-            d = new_def('alias', name, ln.no, generics=gens, type=rhs, type_raw=rhs)
+            if m.group(2):
+                d = new_def('alias', name, ln.no, generics=gens, type=rhs, type_raw=rhs, form='subscript')
+            else:
+                for t, _ in type_idents('python', rhs):
+                    if t in typevars and t not in gens:
+                        gens.append(t)
+                d = new_def('alias', name, ln.no, generics=gens, type=rhs, type_raw=rhs)
             ctx.defs.append(d)
             refs(d, 'alias', rhs)
             for g in gens:
